@@ -133,6 +133,17 @@ func discharge(o *Obligation, timeout time.Duration) (r OblResult) {
 		r.Verdict, r.Backend = "proved", "trivial"
 		return r
 	}
+	// simplify the goal under the facts: boolean subterms that are facts (or negated facts) become
+	// constants, variables fixed to a constant by a fact are replaced
+	if o.Goal != nil {
+		if g := simplifyUnder(o.Facts, o.Goal); g != o.Goal {
+			o = &Obligation{Name: o.Name, Kind: o.Kind, Func: o.Func, Facts: o.Facts, Goal: g, Detail: o.Detail, Pos: o.Pos, Uses: o.Uses, Axioms: o.Axioms, Alg: o.Alg}
+			if g.IsTrue() {
+				r.Verdict, r.Backend = "proved", "simplified"
+				return r
+			}
+		}
+	}
 	for _, f := range o.Facts {
 		if f == o.Goal {
 			r.Verdict, r.Backend = "proved", "fact"
@@ -468,4 +479,70 @@ func max(a, b int) int {
 		return a
 	}
 	return b
+}
+
+func simplifyUnder(facts []*Term, goal *Term) *Term {
+	truth := map[int]bool{}
+	sub := map[int]*Term{}
+	for _, f := range flattenFacts(facts) {
+		truth[f.id] = true
+		if f.op == ONot {
+			continue
+		}
+		if f.op == OEq && f.args[0].sort == SInt {
+			a, b := f.args[0], f.args[1]
+			if a.op == OConst && b.op == OVar {
+				sub[b.id] = a
+			} else if b.op == OConst && a.op == OVar {
+				sub[a.id] = b
+			}
+		}
+	}
+	neg := map[int]bool{}
+	for _, f := range flattenFacts(facts) {
+		if f.op == ONot {
+			neg[f.args[0].id] = true
+		}
+	}
+	memo := map[int]*Term{}
+	var rec func(t *Term) *Term
+	rec = func(t *Term) *Term {
+		if r, ok := memo[t.id]; ok {
+			return r
+		}
+		var r *Term
+		switch {
+		case t.sort == SBool && truth[t.id] && t.op != OTrue:
+			r = True()
+		case t.sort == SBool && neg[t.id]:
+			r = False()
+		default:
+			if s, ok := sub[t.id]; ok {
+				r = s
+			} else if len(t.args) == 0 || t.op == OForall {
+				r = t
+			} else {
+				args := make([]*Term, len(t.args))
+				ch := false
+				for i, a := range t.args {
+					args[i] = rec(a)
+					if args[i] != a {
+						ch = true
+					}
+				}
+				if ch {
+					r = rebuild(t, args)
+				} else {
+					r = t
+				}
+			}
+		}
+		memo[t.id] = r
+		return r
+	}
+	// the goal itself must not be replaced wholesale by "true" because it is a fact; that case is handled by the caller
+	if truth[goal.id] {
+		return goal
+	}
+	return rec(goal)
 }
